@@ -22,6 +22,108 @@ def placeholders(path):
     return [seg for seg in path.split("/") if seg.startswith(":")]
 
 
+def escape_parity_rule(ctx, w):
+    """Quoted header values are written with `\\` before every backslash and double quote (quote_ascii_string_if_required). A reader that scans for
+    the closing quote has to remember whether the current byte is escaped, and an escaped backslash must not escape what follows: the flag is
+    toggled (`is_backslash && !flag`), never just set. Decided on the MIR of the scanners: the loop-carried bool that is set under the `== '\\'`
+    test gets, on that branch, the negation of its own previous value."""
+    rule = "C16.header-escape"
+    ctx.rule(rule, "ruma_common::http_headers scanners of quoted strings (parse_param_value, unescape_string): the loop-carried escape flag is assigned the negation of "
+                   "its previous value on the backslash branch (parity), so `\\\\` followed by `\"` ends the value - the form the writer emits for a value ending in a backslash")
+    found = 0
+    for g in w.all_fns():
+        if "body" not in g or not g["path"].startswith("ruma_common::http_headers::"):
+            continue
+        for body in M.all_bodies(g):
+            # a comparison with the backslash (byte 92 or char '\\')
+            has_bs = any(st[0] == "=" and st[2][0] == "bin" and st[2][1] in ("Eq", "Ne") and any(o.get("k") == "const" and o.get("v") in (92, "\\") for o in st[2][2:4])
+                         for b in body["blocks"] for st in b["s"])
+            if not has_bs:
+                continue
+            names = body.get("names") or {}
+            # candidate flags, found by their role and not by their name: (a) a bool local initialised outside a loop and written inside it (it carries
+            # state from one byte to the next); (b) a bool captured by mutable reference that this body writes (FnMut closure called once per char)
+            cfg_ = M.Cfg(body)
+            loop_blocks = set()
+            for head, blocks in cfg_.natural_loops().items():
+                loop_blocks |= set(blocks)
+            flags = []
+            for li, ty in enumerate(body["locals"]):
+                if ty != "bool":
+                    continue
+                wr = [bi for bi, b in enumerate(body["blocks"]) for st in b["s"] if st[0] == "=" and st[1] == li]
+                if any(bi in loop_blocks for bi in wr) and any(bi not in loop_blocks for bi in wr):
+                    flags.append((str(li), names.get(str(li), f"_{li}")))
+            for k_, v_ in names.items():
+                if not k_.isdigit() and isinstance(v_, dict) and "*" in json.dumps(v_.get("p")):
+                    # written here with a bool value?
+                    def _base_is_capture(pl):
+                        if isinstance(pl, int):
+                            return False
+                        bl = M.pl_local(pl)
+                        if bl == v_["l"]:
+                            return True
+                        bd = [s2[2] for b2 in body["blocks"] for s2 in b2["s"] if s2[0] == "=" and s2[1] == bl]
+                        return len(bd) == 1 and ((bd[0][0] == "use" and bd[0][1].get("k") in ("copy", "move") and M.pl_local(bd[0][1]["pl"]) == v_["l"]) or
+                                                 (bd[0][0] in ("ref", "rawptr") and M.pl_local(bd[0][2]) == v_["l"]))
+                    for b in body["blocks"]:
+                        for st in b["s"]:
+                            if st[0] == "=" and _base_is_capture(st[1]) and st[2][0] == "use" and st[2][1].get("k") in ("copy", "move") and \
+                                    isinstance(st[2][1]["pl"], int) and body["locals"][st[2][1]["pl"]] == "bool":
+                                if (k_, v_) not in flags:
+                                    flags.append((k_, v_))
+            for k, v in flags:
+                found += 1
+                is_local = k.isdigit()
+                def reads_flag(op, depth=0):
+                    if op.get("k") not in ("copy", "move") or depth > 6:
+                        return False
+                    pl = op["pl"]
+                    if is_local and isinstance(pl, int) and pl == int(k):
+                        return True
+                    if not is_local and not isinstance(pl, int):
+                        bl = M.pl_local(pl)
+                        if bl == v["l"]:
+                            return True
+                        bdefs = [st[2] for b in body["blocks"] for st in b["s"] if st[0] == "=" and st[1] == bl]
+                        if len(bdefs) == 1 and ((bdefs[0][0] == "use" and bdefs[0][1].get("k") in ("copy", "move") and M.pl_local(bdefs[0][1]["pl"]) == v["l"]) or
+                                                (bdefs[0][0] in ("ref", "rawptr") and M.pl_local(bdefs[0][2]) == v["l"])):
+                            return True
+                        return False
+                    if isinstance(pl, int):
+                        defs = [st[2] for b in body["blocks"] for st in b["s"] if st[0] == "=" and st[1] == pl]
+                        return len(defs) == 1 and defs[0][0] == "use" and reads_flag(defs[0][1], depth + 1)
+                    return False
+                toggles = any(st[0] == "=" and st[2][0] == "un" and st[2][1] == "Not" and reads_flag(st[2][2]) for b in body["blocks"] for st in b["s"])
+                # the flag is written somewhere in this body (a body that only reads it, e.g. the break test, is not the update site)
+                def writes(st):
+                    if st[0] != "=":
+                        return False
+                    if is_local:
+                        return st[1] == int(k)
+                    if isinstance(st[1], int):
+                        return False
+                    bl = M.pl_local(st[1])
+                    if bl == v["l"]:
+                        return True
+                    bdefs = [s2[2] for b2 in body["blocks"] for s2 in b2["s"] if s2[0] == "=" and s2[1] == bl]
+                    return len(bdefs) == 1 and ((bdefs[0][0] == "use" and bdefs[0][1].get("k") in ("copy", "move") and M.pl_local(bdefs[0][1]["pl"]) == v["l"]) or
+                                                (bdefs[0][0] in ("ref", "rawptr") and M.pl_local(bdefs[0][2]) == v["l"]))
+                n_writes = sum(1 for b in body["blocks"] for st in b["s"] if writes(st))
+                if n_writes <= (1 if is_local else 0):
+                    found -= 1
+                    continue
+                name = k if not k.isdigit() else v
+                ctx.check(toggles, rule, f"{rule}:{PCkey(g['path'])}:{name}", w.where(g),
+                          bad_msg=f"{g['path']}: the escape flag `{name}` is set on a backslash without looking at its previous value: after an escaped backslash the next "
+                                  f"byte counts as escaped too, so a quoted value ending in a backslash (`\"C:\\\\dir\\\\\"`) swallows its closing quote and does not read back as written")
+    ctx.floor("escape flags in the quoted-string scanners of ruma_common::http_headers", found, 2)
+
+
+def PCkey(path):
+    return re.sub(r"(::\{closure#\d+\})+", "", path)
+
+
 def run(ctx):
     thorough = ctx.tier == "thorough"
     fx = ctx.facts("B" if thorough else "A")
@@ -317,6 +419,7 @@ def run(ctx):
     if ctx.tier == "thorough":
         from .. import witness
         witness.check(ctx, "C16.witness", {"C16VersionHistoryFields": "VersionHistory can be built field by field from another crate, bypassing the path/version checks of VersionHistory::new"})
+    escape_parity_rule(ctx, w)
     ctx.assumptions += ["serde_html_form / serde_json round-trip values of the carrier types; field-level serde symmetry is checked in C18.symmetry",
                         "select_path over arbitrary subsets of versions is not decided (only that it is the function used)"]
     ctx.samples += [{"endpoint": "federation membership::create_join_event::v2", "path_args": 2, "query": "RequestQuery", "body": "RequestBody"}]
